@@ -754,11 +754,13 @@ def _adjusted_mutual_info_score(reference_indices, estimated_indices):
     n_samples = len(reference_indices)
     ref_classes = np.unique(reference_indices)
     est_classes = np.unique(estimated_indices)
-    # Special limit cases: no clustering since the data is not split.
+    # Special limit cases: no clustering since the data is not split, or
+    # both labelings put every sample in its own cluster.
     # This is a perfect match hence return 1.0.
     if (
         ref_classes.shape[0] == est_classes.shape[0] == 1
         or ref_classes.shape[0] == est_classes.shape[0] == 0
+        or ref_classes.shape[0] == est_classes.shape[0] == n_samples
     ):
         return 1.0
     contingency = _contingency_matrix(reference_indices, estimated_indices).astype(
